@@ -515,7 +515,40 @@ def case_rates(m, spec, eq, rec):
             rec('rates.transit_rate', 'discharged')
 
 
-KINDS = dict(covariate=case_covariate, iiv=case_iiv, eta_transform=case_eta_transform, allometry=case_allometry,
+def case_covariate_sibling(m, spec, eq, rec, start=None):
+    """Two control streams that share one data file (same datainfo.path) but not the same records - the second has an
+    additional IGNORE filter on the covariate - get the covariate effect one after the other in one process: each
+    must be centred on ITS OWN data.  `order` says which of (full, filtered) goes first; the second one is checked."""
+    import re
+    import tempfile
+    pm, corpus = _W['pm'], _W['corpus']
+    param, cov, effect, op, order = spec
+    path = os.path.join(corpus.TESTDATA, start)
+    text = corpus.load_text(path)
+    mo = re.search(r"(?im)^\$DATA\s+('?)([^\s']+)\1([^\n]*)$", text)
+    if not mo:
+        raise ValueError('no simple $DATA record')
+    datafile = os.path.join(os.path.dirname(path), mo.group(2))
+    cut = centre(m, cov, 'median')
+    full_text = text[:mo.start()] + f"$DATA {datafile}{mo.group(3)}" + text[mo.end():]
+    filt_text = text[:mo.start()] + f"$DATA {datafile}{mo.group(3)} IGNORE=({cov}.LT.{cut:g})" + text[mo.end():]
+    with tempfile.TemporaryDirectory() as d:
+        pf, ps = os.path.join(d, 'full.mod'), os.path.join(d, 'filtered.mod')
+        with open(pf, 'w') as f:
+            f.write(full_text)
+        with open(ps, 'w') as f:
+            f.write(filt_text)
+        full, sub = corpus.load(pf), corpus.load(ps)
+        if len(sub.dataset) in (0, len(full.dataset)):
+            raise ValueError('the filter does not split the data')
+        first, second = (full, sub) if order == 'full_first' else (sub, full)
+        if centre(first, cov, 'median') == centre(second, cov, 'median'):
+            raise ValueError('both datasets have the same centre')
+        pm.add_covariate_effect(first, param, cov, effect, op)      # result discarded: only its traces could matter
+        case_covariate(second, (param, cov, effect, op), eq, rec)
+
+
+KINDS = dict(covariate=case_covariate, covariate_sibling=case_covariate_sibling, iiv=case_iiv, eta_transform=case_eta_transform, allometry=case_allometry,
              error=case_error, rates=case_rates, iiv_existing=case_iiv_existing,
              iov=case_iov, iov_partial=case_iov_partial, ruv_iiv=case_ruv_iiv, time_varying=case_time_varying, blq=case_blq)
 
@@ -533,7 +566,10 @@ def run_case(case):
         res.append((ob, verdict, d or None))
     try:
         m = corpus.load(os.path.join(corpus.TESTDATA, start))
-        KINDS[kind](m, spec, eq, rec)
+        if kind == 'covariate_sibling':
+            case_covariate_sibling(m, spec, eq, rec, start=start)
+        else:
+            KINDS[kind](m, spec, eq, rec)
     except REFUSALS as e:
         out['status'] = f'refused: {type(e).__name__}: {e}'[:160]
     except Exception as e:  # noqa
@@ -563,6 +599,11 @@ def all_cases(thorough):
             for c in cat:
                 for eff in ('cat', 'cat2'):
                     cases.append((start, 'covariate', (p, c, eff, '*')))
+        for c in cont[:1]:
+            for eff in ('lin', 'exp', 'pow', 'piece_lin') if thorough else ('exp', 'pow'):
+                for order in ('full_first', 'subset_first'):
+                    cases.append((start, 'covariate_sibling', (params[-1] if 'pheno' in start else params[0], c, eff,
+                                                               '*', order)))
         noeta = [p for p in params]
         for p in noeta[:3]:
             for form in ('add', 'prop', 'exp', 'log'):
